@@ -104,6 +104,8 @@ pub struct Cfg
     pub pct_app_setup: u64,
     /// percent of resource triggers / trigger calls that name the removable resource `T`
     pub pct_res_t: u64,
+    /// percent of events whose payload owns a signal clone (profiles with signals)
+    pub pct_payload_sig: u64,
 }
 
 fn wset(pairs: &[(K, u32)]) -> [u32; NK] { let mut w = [0u32; NK]; for (k, v) in pairs { w[*k as usize] = *v; } w }
@@ -152,6 +154,7 @@ pub fn base_cfg() -> Cfg
         app_reactors: (0, 1),
         pct_app_setup: 2,
         pct_res_t: 10,
+        pct_payload_sig: 12,
     }
 }
 
@@ -537,9 +540,9 @@ impl<'a> G<'a>
         Some(match k
         {
             x if x == K::Run as usize => Op::Run(self.target(me)),
-            x if x == K::SysEvent as usize => { let t = self.target(me); if self.no_event(t) { Op::Run(t) } else { Op::SysEvent(t, self.p()) } }
-            x if x == K::Broadcast as usize => Op::Broadcast(self.p()),
-            x if x == K::EntityEvent as usize => Op::EntityEvent(s, self.p()),
+            x if x == K::SysEvent as usize => { let t = self.target(me); if self.no_event(t) { Op::Run(t) } else if self.c.signals && self.r.chance(self.c.pct_payload_sig) { Op::SysEventSig(t, self.p(), self.r.below(4) as u8) } else { Op::SysEvent(t, self.p()) } }
+            x if x == K::Broadcast as usize => { if self.c.signals && self.r.chance(self.c.pct_payload_sig) { Op::BroadcastSig(self.p(), self.r.below(4) as u8) } else { Op::Broadcast(self.p()) } }
+            x if x == K::EntityEvent as usize => { if self.c.signals && self.r.chance(self.c.pct_payload_sig) { Op::EntityEventSig(s, self.p(), self.r.below(4) as u8) } else { Op::EntityEvent(s, self.p()) } }
             x if x == K::TriggerRes as usize => Op::TriggerRes(self.res3()),
             x if x == K::Insert as usize => Op::Insert(s, self.comp(), self.val()),
             x if x == K::Remove as usize => Op::Remove(s, self.comp()),
